@@ -794,6 +794,13 @@ class SgzReader(object):
             A single trace, decompressed
         """
         if self.is_2d:
+            if not 0 <= index < self.tracecount:
+                raise IndexError(self.range_error.format(index, 0, self.tracecount - 1))
+            min_sample_id = 0 if min_sample_id is None else min_sample_id
+            max_sample_id = self.n_samples if max_sample_id is None else max_sample_id
+            if not 0 <= min_sample_id < max_sample_id <= self.n_samples:
+                raise IndexError(self.range_error.format(min_sample_id, max_sample_id, 0, self.n_samples))
+
             min_trace = self.blockshape[1] * (index // self.blockshape[1])
 
             if self.blockshape[1] == 4:
@@ -802,7 +809,7 @@ class SgzReader(object):
                 chunk = self.read_subplane(min_trace, min_trace+self.blockshape[1],
                                            0, self.n_samples, access_padding=True)
 
-            trace = chunk[index % self.blockshape[1], 0:self.n_samples]
+            trace = chunk[index % self.blockshape[1], min_sample_id:max_sample_id]
             return np.squeeze(trace)
 
         else:
@@ -820,6 +827,8 @@ class SgzReader(object):
             min_xl = self.blockshape[1] * (xl // self.blockshape[1])
             min_sample_id = 0 if min_sample_id is None else min_sample_id
             max_sample_id = self.n_samples if max_sample_id is None else max_sample_id
+            if not 0 <= min_sample_id < max_sample_id <= self.n_samples:
+                raise IndexError(self.range_error.format(min_sample_id, max_sample_id, 0, self.n_samples))
 
             min_z = self.blockshape[2] * (min_sample_id // self.blockshape[2])
             max_z = self.blockshape[2] * ((max_sample_id + self.blockshape[2] - 1) // self.blockshape[2])
